@@ -639,3 +639,55 @@ func init() {
 		return "", "", false
 	}
 }
+
+// bad-nodes: for "entry hex" lines, every Bad node of the returned tree with the node type that wraps it:
+// "entry hex => W:pos:end:ntokens;..." (W = Stmt, DDL, DML, Query, Expr, Type, or Node for a bare BadNode)
+func init() {
+	commands["bad-nodes"] = func(args []string) {
+		stdinLines(func(line string) {
+			f := strings.Fields(line)
+			if len(f) != 2 {
+				return
+			}
+			e := entryByName(f[0])
+			r := callEntry(e, "", unhx(f[1]))
+			if r.panicked {
+				fmt.Fprintf(out, "%s %s => PANIC\n", f[0], f[1])
+				return
+			}
+			var roots []ast.Node
+			for _, n := range r.nodes {
+				if !isNilNode(n) {
+					roots = append(roots, n)
+				}
+			}
+			ns := allNodes(roots)
+			var sb strings.Builder
+			for _, ni := range ns {
+				b, ok := ni.node.(*ast.BadNode)
+				if !ok {
+					continue
+				}
+				w := "Node"
+				if ni.parent >= 0 {
+					switch ns[ni.parent].node.(type) {
+					case *ast.BadStatement:
+						w = "Stmt"
+					case *ast.BadDDL:
+						w = "DDL"
+					case *ast.BadDML:
+						w = "DML"
+					case *ast.BadQueryExpr:
+						w = "Query"
+					case *ast.BadExpr:
+						w = "Expr"
+					case *ast.BadType:
+						w = "Type"
+					}
+				}
+				fmt.Fprintf(&sb, "%s:%d:%d:%d;", w, b.NodePos, b.NodeEnd, len(b.Tokens))
+			}
+			fmt.Fprintf(out, "%s %s => %s\n", f[0], f[1], sb.String())
+		})
+	}
+}
